@@ -85,7 +85,7 @@ def build():
                            "e__Edge == Edge(out_node, in_node, relation)))"),
     defs=view)))
   loopdefs = dict(view,
-    seen="lambda e: exists(i, 0 <= i < idx, __iterated__[i] == e)",
+    seen="lambda e: e in __iterset__ and __position__[e] < idx",
     in_has="lambda g, n, e: n in g._in_node_map and e in g._in_node_map[n]",
     out_has="lambda g, n, e: n in g._out_node_map and e in g._out_node_map[n]")
   out.append(_setup(Contract(
